@@ -28,28 +28,28 @@ inductive All2 {α β : Type} (R : α → β → Prop) : List α → List β →
 theorem effExtra_nil (mx : Mixin) : effExtra mx [] = [] := by cases mx <;> rfl
 
 section
-variable {M : Type} {A : M → Prop} {obj : Nat → M → Int} {o : Oracle M}
+variable {M : Type} {A : M → Prop} {val : Nat → M → Val} {obj : Nat → M → Int} {o : Oracle M}
 
 /-- hypotheses on a goal list: every goal is in the comparison table and its values are
     representable in its sort -/
-def GoalsOk (A : M → Prop) (obj : Nat → M → Int) (goals : List (Nat × Goal)) : Prop :=
-  ∀ p ∈ goals, p.2.supported = true ∧ ∀ m, A m → castOk p.2.dom (obj p.1 m) = true
+def GoalsOk (A : M → Prop) (val : Nat → M → Val) (obj : Nat → M → Int) (goals : List (Nat × Goal)) : Prop :=
+  ∀ p ∈ goals, p.2.supported = true ∧ GoalReads A val obj p.2 p.1
 
 /-! ## boxed -/
 
-def BoxedPost (A : M → Prop) (obj : Nat → M → Int) (goals : List (Nat × Goal)) (s : Solver M)
+def BoxedPost (A : M → Prop) (val : Nat → M → Val) (obj : Nat → M → Int) (goals : List (Nat × Goal)) (s : Solver M)
     (r : Outcome (Option (List (Nat × M × Int))) × Solver M) : Prop :=
   r.1 = .fuel ∨
   ∃ res, r.1 = .done res ∧ r.2.stack = s.stack ∧ r.2.marks = s.marks ∧ r.2.bad = s.bad ∧
-    (res = none ↔ goals ≠ [] ∧ ¬ ∃ m, Feas A obj s.stack [] m) ∧
+    (res = none ↔ goals ≠ [] ∧ ¬ ∃ m, Feas A val s.stack [] m) ∧
     ∀ l, res = some l →
       All2 (fun (p : Nat × Goal) (q : Nat × M × Int) =>
-        q.1 = p.1 ∧ Feas A obj s.stack [] q.2.1 ∧ q.2.2 = obj p.1 q.2.1 ∧
-        IsOptimum (sense p.2.dir) (Feas A obj s.stack []) (obj p.1) q.2.2) goals l
+        q.1 = p.1 ∧ Feas A val s.stack [] q.2.1 ∧ q.2.2 = obj p.1 q.2.1 ∧
+        IsOptimum (sense p.2.dir) (Feas A val s.stack []) (obj p.1) q.2.2) goals l
 
-theorem boxed_spec (hO : OracleSpec A obj o) (mx : Mixin) (strat : Strat) (fuel : Nat) :
-    ∀ (goals : List (Nat × Goal)) (s : Solver M), GoalsOk A obj goals →
-      BoxedPost A obj goals s (boxed o obj mx strat fuel goals s) := by
+theorem boxed_spec (hO : OracleSpec A val o) (mx : Mixin) (strat : Strat) (fuel : Nat) :
+    ∀ (goals : List (Nat × Goal)) (s : Solver M), GoalsOk A val obj goals →
+      BoxedPost A val obj goals s (boxed o obj mx strat fuel goals s) := by
   intro goals
   induction goals with
   | nil =>
@@ -117,7 +117,7 @@ theorem addAll_props (s : Solver M) (cs : List Constraint) :
     refine ⟨by rw [h1]; simp [Solver.add], by rw [h2]; rfl, by rw [h3]; rfl⟩
 
 theorem Feas_append (base cd : List Constraint) (m : M) :
-    Feas A obj (base ++ cd) [] m ↔ Feas A obj base cd m := by
+    Feas A val (base ++ cd) [] m ↔ Feas A val base cd m := by
   unfold Feas
   constructor
   · rintro ⟨h1, h2, _⟩
@@ -131,15 +131,15 @@ theorem Feas_append (base cd : List Constraint) (m : M) :
 
 /-- `_lexicographic_opt` of either mix-in optimises the goal over the models that keep the earlier
     optima (`cd`) and leaves the solver as it was -/
-theorem lexStep_spec (hO : OracleSpec A obj o) {g : Goal} {gi : Nat} (hsup : g.supported = true)
-    (hDom : ∀ m, A m → castOk g.dom (obj gi m) = true)
+theorem lexStep_spec (hO : OracleSpec A val o) {g : Goal} {gi : Nat} (hsup : g.supported = true)
+    (hG : GoalReads A val obj g gi)
     (mx : Mixin) (strat : Strat) (cd : List Constraint) (fuel : Nat) (s : Solver M) :
-    OptPost A obj g gi cd s (lexStep o obj mx strat g gi cd fuel s) := by
+    OptPost A val obj g gi cd s (lexStep o obj mx strat g gi cd fuel s) := by
   cases mx with
-  | sua => exact optimize_spec hO hsup hDom .sua strat cd fuel s
+  | sua => exact optimize_spec hO hsup hG .sua strat cd fuel s
   | incr =>
     obtain ⟨a1, a2, a3⟩ := addAll_props s.push cd
-    have hspec := optimize_spec (gi := gi) hO hsup hDom .incr strat [] fuel (s.push.addAll cd)
+    have hspec := optimize_spec (gi := gi) hO hsup hG .incr strat [] fuel (s.push.addAll cd)
     unfold lexStep
     simp only
     cases hr : optimize o obj .incr strat g gi [] fuel (s.push.addAll cd) with
@@ -189,39 +189,42 @@ theorem IsLexOptimum_congr (gs : List (Sense × (M → Int))) :
       rw [IsOptimum_congr h f c]
       rw [ih (fun m => S m ∧ f m = c) (fun m => S' m ∧ f m = c) (fun m => by rw [h m]) cs]
 
-theorem Feas_snoc_eq (base cd : List Constraint) (gi : Nat) (v : Int) (m : M) :
-    Feas A obj base (cd ++ [.eq gi v]) m ↔ (Feas A obj base cd m ∧ obj gi m = v) := by
+theorem Feas_snoc_eq {g : Goal} {gi : Nat} (hG : GoalReads A val obj g gi) (base cd : List Constraint)
+    (v : Int) (m : M) :
+    Feas A val base (cd ++ [.eq gi g.dom v]) m ↔ (Feas A val base cd m ∧ obj gi m = v) := by
   unfold Feas
   constructor
   · rintro ⟨h1, h2, h3⟩
     refine ⟨⟨h1, h2, fun c hc => h3 c (by simp [hc])⟩, ?_⟩
-    have := h3 (.eq gi v) (by simp)
+    have := h3 (.eq gi g.dom v) (by simp)
+    rw [(hG m h1).2]
     simpa [Constraint.holds] using this
   · rintro ⟨⟨h1, h2, h3⟩, h4⟩
     refine ⟨h1, h2, ?_⟩
     intro c hc
     rcases List.mem_append.1 hc with hc | hc
     · exact h3 c hc
-    · have : c = .eq gi v := by simpa using hc
+    · have : c = .eq gi g.dom v := by simpa using hc
       subst this
+      rw [(hG m h1).2] at h4
       simp [Constraint.holds, h4]
 
-def LexPost (A : M → Prop) (obj : Nat → M → Int) (goals : List (Nat × Goal)) (base cd : List Constraint)
+def LexPost (A : M → Prop) (val : Nat → M → Val) (obj : Nat → M → Int) (goals : List (Nat × Goal)) (base cd : List Constraint)
     (marks0 : List Nat) (bad0 : Bool) (vals : List Int)
     (r : Outcome (Option (M × List Int)) × Solver M) : Prop :=
   r.1 = .fuel ∨
   ∃ res, r.1 = .done res ∧ r.2.stack = base ∧ r.2.marks = marks0 ∧ r.2.bad = bad0 ∧
-    (res = none ↔ ¬ ∃ m, Feas A obj base cd m) ∧
+    (res = none ↔ ¬ ∃ m, Feas A val base cd m) ∧
     ∀ m vs, res = some (m, vs) →
-      Feas A obj base cd m ∧ ∃ vs', vs = vals ++ vs' ∧ vs' = goals.map (fun p => obj p.1 m) ∧
-        IsLexOptimum (specGoals obj goals) (Feas A obj base cd) vs'
+      Feas A val base cd m ∧ ∃ vs', vs = vals ++ vs' ∧ vs' = goals.map (fun p => obj p.1 m) ∧
+        IsLexOptimum (specGoals obj goals) (Feas A val base cd) vs'
 
-theorem lexLoop_spec (hO : OracleSpec A obj o) (mx : Mixin) (strat : Strat) (fuel : Nat)
+theorem lexLoop_spec (hO : OracleSpec A val o) (mx : Mixin) (strat : Strat) (fuel : Nat)
     (base : List Constraint) (marks0 : List Nat) (bad0 : Bool) :
     ∀ (goals : List (Nat × Goal)) (cd : List Constraint) (last : Option M) (vals : List Int) (s : Solver M),
-      GoalsOk A obj goals → s.stack = base → s.marks = base.length :: marks0 → s.bad = bad0 →
-      (∀ ml, last = some ml → Feas A obj base cd ml) → (goals = [] → last ≠ none) →
-      LexPost A obj goals base cd marks0 bad0 vals (lexLoop o obj mx strat fuel goals cd last vals s) := by
+      GoalsOk A val obj goals → s.stack = base → s.marks = base.length :: marks0 → s.bad = bad0 →
+      (∀ ml, last = some ml → Feas A val base cd ml) → (goals = [] → last ≠ none) →
+      LexPost A val obj goals base cd marks0 bad0 vals (lexLoop o obj mx strat fuel goals cd last vals s) := by
   intro goals
   induction goals with
   | nil =>
@@ -265,8 +268,8 @@ theorem lexLoop_spec (hO : OracleSpec A obj o) (mx : Mixin) (strat : Strat) (fue
       | some mc =>
         obtain ⟨m, v⟩ := mc
         obtain ⟨hfm, hv, hopt⟩ := hsome m v rfl
-        have hfm' : Feas A obj base (cd ++ [.eq gi v]) m := (Feas_snoc_eq base cd gi v m).2 ⟨hfm, hv.symm⟩
-        have ih' := ih (cd ++ [.eq gi v]) (some m) (vals ++ [v]) s1 (fun q hq => hok q (by simp [hq]))
+        have hfm' : Feas A val base (cd ++ [.eq gi g.dom v]) m := (Feas_snoc_eq hp.2 base cd v m).2 ⟨hfm, hv.symm⟩
+        have ih' := ih (cd ++ [.eq gi g.dom v]) (some m) (vals ++ [v]) s1 (fun q hq => hok q (by simp [hq]))
           e1 (by rw [e2, h2]) (by rw [e3, h3]) (fun ml h => by cases h; exact hfm') (fun _ h => by cases h)
         simp only
         rcases ih' with hfu | ⟨res2, hres2, f1, f2, f3, hnone2, hsome2⟩
@@ -278,16 +281,16 @@ theorem lexLoop_spec (hO : OracleSpec A obj o) (mx : Mixin) (strat : Strat) (fue
             · intro h; exact absurd ⟨m, hfm⟩ h
           · intro m2 vs h
             obtain ⟨g1, vs', g2, g3, g4⟩ := hsome2 m2 vs h
-            obtain ⟨g1a, g1b⟩ := (Feas_snoc_eq base cd gi v m2).1 g1
+            obtain ⟨g1a, g1b⟩ := (Feas_snoc_eq hp.2 base cd v m2).1 g1
             refine ⟨g1a, v :: vs', by rw [g2]; simp, by rw [g3]; simp [g1b], ?_⟩
             simp only [specGoals, List.map, IsLexOptimum]
             refine ⟨⟨⟨m, hfm, hv.symm⟩, fun m' hm' => (sense_le g _ _).2 (hopt m' hm')⟩, ?_⟩
-            exact (IsLexOptimum_congr _ _ _ (fun m' => Feas_snoc_eq base cd gi v m') vs').1 g4
+            exact (IsLexOptimum_congr _ _ _ (fun m' => Feas_snoc_eq hp.2 base cd v m') vs').1 g4
 
 /-- `lexicographic_optimize`, either mix-in, either strategy -/
-theorem lexi_spec (hO : OracleSpec A obj o) (mx : Mixin) (strat : Strat) (fuel : Nat)
-    (goals : List (Nat × Goal)) (hne : goals ≠ []) (hok : GoalsOk A obj goals) (s : Solver M) :
-    LexPost A obj goals s.stack [] s.marks s.bad [] (lexicographic o obj mx strat fuel goals s) := by
+theorem lexi_spec (hO : OracleSpec A val o) (mx : Mixin) (strat : Strat) (fuel : Nat)
+    (goals : List (Nat × Goal)) (hne : goals ≠ []) (hok : GoalsOk A val obj goals) (s : Solver M) :
+    LexPost A val obj goals s.stack [] s.marks s.bad [] (lexicographic o obj mx strat fuel goals s) := by
   unfold lexicographic
   exact lexLoop_spec hO mx strat fuel s.stack s.marks s.bad goals [] none [] s.push hok rfl rfl rfl
     (fun ml h => by cases h) (fun h => absurd h hne)
